@@ -211,6 +211,33 @@ impl<'a, D: SystemData<'a> + Describe> Describe for DGenField<'a, D> {
     }
 }
 
+/// The same with the bound in a where clause.
+#[derive(shred::SystemData)]
+pub struct DGenWhere<'a, D>
+where
+    D: SystemData<'a>,
+{
+    pub extra: D,
+    pub base: Write<'a, L9>,
+}
+impl<'a, D: SystemData<'a> + Describe> Describe for DGenWhere<'a, D> {
+    fn leaves(o: &mut Vec<LeafD>) {
+        D::leaves(o);
+        o.push(LeafD { res: 9, write: true, kind: LKind::Default });
+    }
+}
+
+/// Tuple struct whose only bound on the member type is in the where clause.
+#[derive(shred::SystemData)]
+pub struct DGenWhereTup<'a, D>(pub D, pub PhantomData<&'a ()>)
+where
+    D: SystemData<'a>;
+impl<'a, D: SystemData<'a> + Describe> Describe for DGenWhereTup<'a, D> {
+    fn leaves(o: &mut Vec<LeafD>) {
+        D::leaves(o);
+    }
+}
+
 /// Extra lifetime besides the fetch lifetime.
 #[derive(shred::SystemData)]
 pub struct DTwoLt<'a, 'b> {
@@ -312,6 +339,8 @@ fam!(FDGeneric, DGeneric<'a, L18>);
 fam!(FDWhere, DWhere<'a, L19>);
 fam!(FDGenField, DGenField<'a, Write<'a, L20>>);
 fam!(FDGenField2, DGenField<'a, (Read<'a, L21>, DTuple<'a>, Option<Write<'a, L22>>)>);
+fam!(FDGenWhere, DGenWhere<'a, (Read<'a, L20>, Option<Write<'a, L21>>)>);
+fam!(FDGenWhereTup, DGenWhereTup<'a, Write<'a, L22, H<22>>>);
 fam!(FDTwoLt, DTwoLt<'a, 'static>);
 fam!(FDNest, DNest<'a>);
 fam!(FDTupleGen, DTupleGen<'a, L23>);
@@ -328,6 +357,8 @@ pub fn all_fams() -> Vec<FamEntry> {
     v.push(fam_entry::<FDWhere>("DWhere", "derived struct with a where clause"));
     v.push(fam_entry::<FDGenField>("DGenField", "derived struct with a bare type-parameter field that is system data"));
     v.push(fam_entry::<FDGenField2>("DGenField2", "derived struct whose type-parameter field is a nested tuple with a derived struct"));
+    v.push(fam_entry::<FDGenWhere>("DGenWhere", "derived struct with a type-parameter field whose SystemData bound is in a where clause"));
+    v.push(fam_entry::<FDGenWhereTup>("DGenWhereTup", "derived tuple struct with a type-parameter member bounded in a where clause"));
     v.push(fam_entry::<FDTwoLt>("DTwoLt", "derived struct with an extra lifetime"));
     v.push(fam_entry::<FDNest>("DNest", "derived struct nesting derived structs and a tuple"));
     v.push(fam_entry::<FDTupleGen>("DTupleGen", "derived generic tuple struct with a custom setup handler"));
